@@ -193,7 +193,7 @@ def n5_run(carve):
 
     from .c13 import _enum_outcome
 
-    L = pl.DataFrame({"k": [1, 2, 2, 3, None, 7], "x": [10, 20, 21, 30, 40, 70], "h": [1, 2, 3, 4, 5, 6]})
+    L = pl.DataFrame({"k": [1, 2, 2, 3, None, 7], "x": [10, 20, 21, 30, 40, 70], "h": [1, 2, 3, 4, 5, 6], "kf": [1.0, 2.0, 2.0, 3.0, None, 7.0]})
     R = pl.DataFrame({"k": [2, 2, 3, 4, None, 7], "y": [200, 201, 300, 400, 500, 5], "g": [1, 2, 3, 4, 5, 6]})
     lrows, rrows = L.rows(), R.rows()
     preds = {
@@ -204,6 +204,11 @@ def n5_run(carve):
         "eq_and_ge_expr": (lambda l, r: (l.k == r.k) & (l.h + 1 >= r.g), lambda a, b: a[0] is not None and b[0] is not None and a[0] == b[0] and a[2] + 1 >= b[2]),
         "two_eq": (lambda l, r: (l.k == r.k) & (l.h == r.g), lambda a, b: a[0] is not None and b[0] is not None and a[0] == b[0] and a[2] == b[2]),
         "expr_key": (lambda l, r: l.k + 1 == r.k, lambda a, b: a[0] is not None and b[0] is not None and a[0] + 1 == b[0]),
+        # keys of different numeric type (Float64 on the left, Int64 on the right)
+        "eq_float_int": (lambda l, r: l.kf == r.k, lambda a, b: a[3] is not None and b[0] is not None and a[3] == b[0]),
+        "eq_int_float_swapped": (lambda l, r: r.k == l.kf, lambda a, b: a[3] is not None and b[0] is not None and a[3] == b[0]),
+        "eq_float_int_and_lt": (lambda l, r: (l.kf == r.k) & (l.x < r.y), lambda a, b: a[3] is not None and b[0] is not None and a[3] == b[0] and a[1] < b[1]),
+        "lt_float_int": (lambda l, r: l.kf < r.k, lambda a, b: a[3] is not None and b[0] is not None and a[3] < b[0]),
     }
     n, bad = 0, []
 
@@ -213,9 +218,9 @@ def n5_run(carve):
         for a in lrows:
             m = [j for j, b in enumerate(rrows) if py(a, b)]
             matched_r.update(m)
-            out += [a + rrows[j] for j in m]
+            out += [a[:3] + rrows[j] for j in m]
             if not m and how in ("left", "full"):
-                out.append(a + (None, None, None))
+                out.append(a[:3] + (None, None, None))
         if how == "full":
             out += [(None, None, None) + b for j, b in enumerate(rrows) if j not in matched_r]
         return out
@@ -233,7 +238,7 @@ def n5_run(carve):
                 l, r = pdt.Table("l", pdt.SqlAlchemy(eng)), pdt.Table("r", pdt.SqlAlchemy(eng))
             for pname, (on, py) in preds.items():
                 for how in ("inner", "left", "full"):
-                    if how == "full" and pname not in ("eq", "eq_swapped", "two_eq", "expr_key"):
+                    if how == "full" and pname not in ("eq", "eq_swapped", "two_eq", "expr_key", "eq_float_int", "eq_int_float_swapped"):
                         continue
                     for variant in ("plain", "right_hidden", "left_filtered", "right_const", "right_const_alias", "left_const", "right_filtered"):
                         if "join_helper" in carve and False:
@@ -270,9 +275,9 @@ def n5_run(carve):
                                 want = []
                                 for a in lrows:
                                     m = [b for b in rrows if b[2] != 2 and py(a, b)]
-                                    want += [a + b for b in m]
+                                    want += [a[:3] + b for b in m]
                                     if not m and how == "left":
-                                        want.append(a + (None, None, None))
+                                        want.append(a[:3] + (None, None, None))
                             j = ll >> pdt.join(rr, on(l, r), how)
                             names = ["lk__", "lx__", "lh__", "rk__", "ry__", "rg__"] + (["cc__"] if extra_cols else [])
                             out = j >> pdt.mutate(lk__=l.k, lx__=l.x, lh__=l.h, rk__=r.k, ry__=r.y, rg__=r.g, **({"cc__": extra_cols[0]} if extra_cols else {})) >> pdt.select(*[pdt.C[c] for c in names]) >> pdt.export(pdt.Polars())
@@ -305,7 +310,7 @@ def obligations(tier):
                                       functions=f, bounded=f"table widths {ls.w} and {rs.w} (names symbolic, collisions explored)", tags=("cross_backend",),
                                       carveouts={"join_helper_names": "no column is named __INDEX__ or <left column>_right"}, replayer=make_replayer(ls, rs, label, fn, "polars" if backend == "polars" else "sqlite")))
     obs.append(Obligation("C06/N5/native_matrix", "N5", "exact row combinations of inner / left / full joins natively", n5_run, functions=fns_p + [fi(H.sql_backend.SqlImpl.compile_ast)],
-                          bounded="7 predicate shapes x 3 join kinds x 6 operand variants (plain, hidden right key, filtered left / right, constant column on either side) x 2 backends on one pair of 6-row tables with nulls, duplicates and unmatched rows"))
+                          bounded="11 predicate shapes (incl. Float64 vs Int64 keys) x 3 join kinds x 6 operand variants (plain, hidden right key, filtered left / right, constant column on either side) x 2 backends on one pair of 6-row tables with nulls, duplicates and unmatched rows"))
     return obs
 
 
